@@ -475,7 +475,7 @@ theorem full_info_smaps (c : Cfg) (hg : c.Good) (pagesize : Nat) (st : Statm) (m
       intro e; rw [e] at hne'; simp at hne'
     have hw : ∀ x ∈ m :: ms', WfM false (m.kv.map (·.key)) x := fun x hx => wfMapping_spec (hall x hx)
     unfold memoryFullInfo
-    simp only [Bool.false_eq_true, if_false]
+    simp only [Bool.false_eq_true, if_false, hg.basicFirst]
     rw [parseSmaps_rendered c hg _ hK hnd m ms' hw, statm_roundtrip c hg pagesize st]
     rfl
 
